@@ -294,10 +294,27 @@ pub fn c16(tier: &str, seed: u64) -> Vec<Case> {
 }
 
 /// every public observer applied to every part of a parsed packet; "ok", or what failed
+/// a formatter sink that refuses after a few bytes: the error path of `Display` / `Debug` implementations
+struct Tiny(usize);
+impl std::fmt::Write for Tiny {
+    fn write_str(&mut self, s: &str) -> std::fmt::Result { if s.len() > self.0 { self.0 = 0; Err(std::fmt::Error) } else { self.0 -= s.len(); Ok(()) } }
+}
+
+/// every way a caller may ask for a value's text: plain, with precision / width / alignment / sign / alternate flags,
+/// and into sinks that give up after 0, 3 or 16 bytes (a fixed log line): an `Err` is fine, a panic is not
+fn format_every_way<T: std::fmt::Display + std::fmt::Debug>(x: &T) {
+    use std::fmt::Write;
+    let _ = (format!("{}", x), format!("{:?}", x), format!("{:#?}", x), format!("{:.0}", x), format!("{:.1}", x), format!("{:.4}", x), format!("{:.300}", x));
+    let _ = (format!("{:>8}", x), format!("{:<3}", x), format!("{:^40.3}", x), format!("{:*>12.5}", x), format!("{:#}", x), format!("{:08}", x), format!("{:+}", x));
+    let _ = (format!("{:.2?}", x), format!("{:30?}", x), format!("{:<#12.3?}", x));
+    for room in [0usize, 3, 16] { let mut t = Tiny(room); let _ = write!(t, "{}", x); let mut t = Tiny(room); let _ = write!(t, "{:?}", x); let mut t = Tiny(room); let _ = write!(t, "{:.3}", x); }
+}
+
 fn observe(p: &Packet) -> std::result::Result<(), String> {
     let try_it = |what: &str, f: &dyn Fn()| -> std::result::Result<(), String> {
         std::panic::catch_unwind(std::panic::AssertUnwindSafe(f)).map_err(|_| what.to_string())
     };
+    try_it("debug-packet-sink", &|| { use std::fmt::Write; for room in [0usize, 10, 100] { let mut t = Tiny(room); let _ = write!(t, "{:?}", p); let mut t = Tiny(room); let _ = write!(t, "{:#?}", p); } })?;
     try_it("debug-packet", &|| { let _ = format!("{:?}", p); })?;
     try_it("clone-packet", &|| { let _ = p.clone(); })?;
     for q in &p.questions {
@@ -306,6 +323,7 @@ fn observe(p: &Packet) -> std::result::Result<(), String> {
     }
     for r in p.answers.iter().chain(p.name_servers.iter()).chain(p.additional_records.iter()) {
         try_it("display-name", &|| { let _ = format!("{} {:?} {}", r.name, r.name, r.name.to_string()); for l in r.name.get_labels() { let _ = format!("{} {:?}", l, l); } })?;
+        try_it("format-name", &|| { format_every_way(&r.name); for l in r.name.get_labels() { format_every_way(l); } })?;
         try_it("debug-record", &|| { let _ = format!("{:?} {:?}", r, r.rdata); })?;
         // the text of the first label is what service discovery shows as the instance name, with and without escapes
         try_it("instance-name", &|| { if let Some(l) = r.name.get_labels().first() { for text in [l.to_string(), r.name.to_string()] { let i = simple_mdns::InstanceInformation::new(text); let _ = (i.escaped_instance_name(), i.unescaped_instance_name(), format!("{:?}", i)); } } })?;
@@ -317,11 +335,12 @@ fn observe(p: &Packet) -> std::result::Result<(), String> {
                 try_it("txt-long-attributes", &|| { let _ = t.clone().long_attributes(); })?;
                 try_it("txt-to-string", &|| { let _ = String::try_from(t.clone()); })?;
             }
-            RData::HINFO(x) => { try_it("charstr", &|| { let _ = format!("{} {:?}", x.cpu, x.os); let _ = String::try_from(x.cpu.clone()); })?; }
+            RData::HINFO(x) => { try_it("charstr", &|| { let _ = format!("{} {:?}", x.cpu, x.os); let _ = String::try_from(x.cpu.clone()); })?; try_it("format-charstr", &|| { format_every_way(&x.cpu); format_every_way(&x.os); })?; }
             RData::NAPTR(x) => { try_it("charstr", &|| { let _ = format!("{} {} {}", x.flags, x.services, x.regexp); let _ = String::try_from(x.regexp.clone()); })?; }
             RData::CAA(x) => { try_it("charstr", &|| { let _ = format!("{}", x.tag); })?; }
             RData::ISDN(x) => { try_it("charstr", &|| { let _ = format!("{} {}", x.address, x.sa); })?; }
             RData::SVCB(x) => { try_it("svcb-params", &|| { for (k, val) in x.iter_params() { let _ = (k, val.len()); } let _ = x.get_param(1); })?; }
+            RData::HTTPS(x) => { try_it("svcb-params", &|| { for (k, val) in x.0.iter_params() { let _ = (k, val.len()); } let _ = x.0.get_param(1); let _ = x.0.get_param(65535); })?; }
             _ => {}
         }
     }
